@@ -35,8 +35,7 @@ for sched in ([3], [1, 2], [2, 1]):
     add(3, sched, 3, False, "quick" if sched != [2, 1] else "thorough")
 for sched in ([4], [2, 2], [1, 2, 1]):
     add(4, sched, 3, False, "thorough")
-for sched in compositions(5):
-    add(5, sched, 3, False, "thorough")
+# N = 5 with three calls ran out of memory (14 GB) for every schedule tried and is not registered
 for sched in ([2], [1, 1]):
     add(2, sched, 2, True, "quick")
 for sched in ([3], [1, 2], [2, 1]):
